@@ -9,6 +9,7 @@ use std::panic::catch_unwind;
 use serde_json::Value;
 use serde_json::json;
 
+mod conflict_props;
 mod diff_props;
 mod fileset_props;
 mod git_props;
@@ -33,6 +34,7 @@ fn main() {
             "c02" => merge_props::c02(&case),
             "c03" => diff_props::c03(&case),
             "c04" => diff_props::c04(&case),
+            "c05" => conflict_props::c05(&case),
             "c12" => refs_props::c12(&case),
             "c26" => wc_props::c26(&case),
             "c30" => matcher_props::c30(&case),
